@@ -15,8 +15,10 @@ Definition two_m28 : Q := 1 # 268435456.
 Definition two_m20 : Q := 1 # 1048576.
 Definition two_m50 : Q := 1 # 1125899906842624.
 
+(* largest coordinate magnitude (the natural unit of the problem); 1 for empty / all-zero input *)
 Definition maxcoord (p : list pt4) : Q :=
-  fold_right (fun a acc => Qmax (Qmax (Qabs (qx a)) (Qabs (qy a))) (Qmax (Qmax (Qabs (qu a)) (Qabs (qv a))) acc)) 1 p.
+  let m := fold_right (fun a acc => Qmax (Qmax (Qabs (qx a)) (Qabs (qy a))) (Qmax (Qmax (Qabs (qu a)) (Qabs (qv a))) acc)) 0 p in
+  if Qeq_bool m 0 then 1 else m.
 
 Definition rs_agree (g : geom) (d : rsdata) (sc : Q) (i00 i01 i10 i11 is0 is1 : Q) : bool :=
   let tm := two_m28 * Qmax 1 (Qmax (Qabs i00) (Qabs i01)) in
